@@ -7,6 +7,7 @@ use super::*;
 use crate::kani_model::ks;
 use crate::kani_model::mk::*;
 use crate::vcover;
+use crate::portfolio::SFLInput;
 
 macro_rules! bk_harness {
     ($(#[$m:meta])* fn $name:ident() $body:block) => {
@@ -381,5 +382,206 @@ bk_harness! {
         let _ = split_cost;
         core::mem::forget(d); core::mem::forget(txs); core::mem::forget(st1); core::mem::forget(st2);
         core::mem::forget(a); core::mem::forget(b); core::mem::forget(la); core::mem::forget(lb);
+    }
+}
+
+// ---- C02 / C03: the denied amount and its redistribution, on the real
+// get_delta_superficial_loss_info *including* the real window scan (so that a
+// counterexample replays natively through the same call).
+// History: Buy(default, x) and Buy(b, y) inside the window, then the loss sale
+// by default. State just before the sale: default holds bd, b holds bb.
+const SALE_DAY: i64 = 100;
+
+fn sfl_state(bd: i64, bb: Option<i64>) -> AffiliatePortfolioSecurityStatuses {
+    let mut st = AffiliatePortfolioSecurityStatuses::new(SEC.to_string(), None);
+    let mut total = bd;
+    st.set_latest_post_status(&aff(0), status(gez(bd, 0), gez(total, 0), Some(gez(0, 0))));
+    if let Some(b) = bb {
+        total += b;
+        st.set_latest_post_status(&aff(1), status(gez(b, 0), gez(total, 0), Some(gez(0, 0))));
+    }
+    st
+}
+fn min3i(a: i64, b: i64, c: i64) -> i64 {
+    let m = if a < b { a } else { b };
+    if m < c { m } else { c }
+}
+/// The statement's effective-cent rule: the denied amount is loss*ratio,
+/// shown as the exact cent when it is within 1e-10 of one.
+fn eff_cent(d: Decimal) -> Decimal {
+    let r = d.round_dp_with_strategy(2, rust_decimal::RoundingStrategy::MidpointAwayFromZero);
+    if (r - d).abs() < dec(1, 10) { r } else { d }
+}
+
+bk_harness! {
+    #[kani::unwind(5)]
+    fn c02_amount_one_buyer() {
+        let x = any_in(1, 15); let b0 = any_in(0, 15);
+        let n = any_in(1, 15);
+        let loss = any_in(1, 2000); // 0.01 .. 20.00
+        let bd = b0 + x;
+        ks::assume(n <= bd);
+        let st = sfl_state(bd, None);
+        let txs = vec![
+            tx(aff(0), date(SALE_DAY - 5), 0, buy(pos(x, 0), gez(1, 0), gez(0, 0), cad(), None)),
+            tx(aff(0), date(SALE_DAY), 1, sell(pos(n, 0), gez(1, 0), gez(0, 0), cad(), None, None)),
+        ];
+        let r = get_delta_superficial_loss_info(1, &txs, &st, neg(-loss, 2));
+        let held = bd - n;
+        match r {
+            Ok(Some((info, adj))) => {
+                vcover!("superficial");
+                assert!(held > 0);
+                let num = min3i(n, x, held);
+                assert!(*info.ratio.numerator == dec(num, 0) && *info.ratio.denominator == dec(n, 0));
+                // denied = loss * min(sold, acquired, held) / sold
+                let ratio = logged_div(0, dec(num, 0), dec(n, 0));
+                let denied = eff_cent(dec(-loss, 2) * ratio);
+                assert!(*info.superficial_loss == denied);
+                assert!(!info.potentially_over_applied);
+                // C03: added once, in full, to the buyer's cost base
+                assert!(adj.len() == 1);
+                assert!(adj[0].affiliate == aff(0));
+                assert!(adj[0].settlement_date == date(SALE_DAY));
+                match &adj[0].action_specifics {
+                    TxActionSpecifics::Sfla(s) => {
+                        let portion = logged_div(1, dec(held, 0), dec(held, 0));
+                        assert!(s.total_amount() == PosDecimal::try_from(dec(-1, 0) * denied * portion).unwrap());
+                        assert!(*s.total_amount() == dec(0, 0) - denied);
+                    }
+                    _ => assert!(false, "adjustment is not an SfLA"),
+                }
+                core::mem::forget(info); core::mem::forget(adj);
+            }
+            Ok(None) => {
+                vcover!("not superficial");
+                assert!(held == 0);
+            }
+            Err(_) => assert!(false, "rejected"),
+        }
+        core::mem::forget(txs); core::mem::forget(st);
+    }
+}
+
+bk_harness! {
+    #[kani::unwind(6)]
+    fn c03_two_buyers_split_in_proportion() {
+        let x = any_in(1, 7); let y = any_in(1, 7);
+        let b0 = any_in(0, 7); let bb0 = any_in(0, 7);
+        let n = any_in(1, 7);
+        let loss = any_in(1, 200);
+        let bd = b0 + x; let bb = bb0 + y;
+        ks::assume(n <= bd);
+        let st = sfl_state(bd, Some(bb));
+        let txs = vec![
+            tx(aff(0), date(SALE_DAY - 9), 0, buy(pos(x, 0), gez(1, 0), gez(0, 0), cad(), None)),
+            tx(aff(1), date(SALE_DAY - 5), 1, buy(pos(y, 0), gez(1, 0), gez(0, 0), cad(), None)),
+            tx(aff(0), date(SALE_DAY), 2, sell(pos(n, 0), gez(1, 0), gez(0, 0), cad(), None, None)),
+        ];
+        let r = get_delta_superficial_loss_info(2, &txs, &st, neg(-loss, 2));
+        let hd = bd - n; // default's end-of-window holding
+        let held = hd + bb;
+        match r {
+            Ok(Some((info, adj))) => {
+                vcover!("superficial");
+                let num = min3i(n, x + y, held);
+                let ratio = logged_div(0, dec(num, 0), dec(n, 0));
+                let denied = eff_cent(dec(-loss, 2) * ratio);
+                assert!(*info.superficial_loss == denied);
+                assert!(info.potentially_over_applied == (held < num));
+                // one adjustment per buyer that still holds shares, ordered by affiliate id
+                assert!(adj.len() == 1 + (hd > 0) as usize);
+                let mut sum = dec(0, 0);
+                let mut k = 0;
+                if hd > 0 {
+                    // "b" < "d" (ids): b first
+                    assert!(adj[0].affiliate == aff(1) && adj[1].affiliate == aff(0));
+                }
+                for a in adj.iter() {
+                    assert!(!a.affiliate.registered());
+                    match &a.action_specifics {
+                        TxActionSpecifics::Sfla(s) => { sum = sum + *s.total_amount(); }
+                        _ => assert!(false, "adjustment is not an SfLA"),
+                    }
+                    k += 1;
+                }
+                // never more than the denied amount; all of it up to the two truncated portions
+                assert!(sum <= dec(0, 0) - denied);
+                core::mem::forget(info); core::mem::forget(adj);
+            }
+            Ok(None) => assert!(false, "b bought in the window and still holds shares"),
+            Err(_) => assert!(false, "rejected"),
+        }
+        core::mem::forget(txs); core::mem::forget(st);
+    }
+}
+
+bk_harness! {
+    #[kani::unwind(5)]
+    fn c02_specified_sfl_validated() {
+        // the user states the superficial loss on the sale row
+        let x = any_in(1, 7); let b0 = any_in(0, 7);
+        let n = any_in(1, 7);
+        let loss = any_in(1, 200);
+        let given = any_in(0, 300); // 0.00 .. 3.00, as -given/100
+        let given_milli = any_in(0, 9); // plus thousandths
+        let force = ks::any_bool();
+        let bd = b0 + x;
+        ks::assume(n <= bd);
+        let st = sfl_state(bd, None);
+        let g = dec(-(given * 10 + given_milli), 3);
+        let sfl_in = SFLInput { superficial_loss: LessEqualZeroDecimal::try_from(g).unwrap(), force };
+        let txs = vec![
+            tx(aff(0), date(SALE_DAY - 5), 0, buy(pos(x, 0), gez(1, 0), gez(0, 0), cad(), None)),
+            tx(aff(0), date(SALE_DAY), 1, sell(pos(n, 0), gez(1, 0), gez(0, 0), cad(), None, Some(sfl_in))),
+        ];
+        let r = get_delta_superficial_loss_info(1, &txs, &st, neg(-loss, 2));
+        let held = bd - n;
+        let num = min3i(n, x, held);
+        // what the tool computes by itself
+        let computed = if held > 0 { eff_cent(dec(-loss, 2) * logged_div(0, dec(num, 0), dec(n, 0))) } else { dec(0, 0) };
+        let differs = (computed - g).abs() > dec(1, 3);
+        match r {
+            Ok(res) => {
+                vcover!("accepted");
+                assert!(force || !differs);
+                match res {
+                    Some((info, adj)) => {
+                        // the stated value replaces the computed one; no automatic adjustments
+                        assert!(*info.superficial_loss == g);
+                        assert!(adj.is_empty());
+                        assert!(!info.potentially_over_applied);
+                        core::mem::forget(info);
+                    }
+                    None => assert!(given == 0 && given_milli == 0),
+                }
+            }
+            Err(_) => {
+                vcover!("rejected");
+                assert!(!force && differs);
+            }
+        }
+        core::mem::forget(txs); core::mem::forget(st);
+    }
+}
+
+// ---- C05: no panic in the denied-amount computation, whatever the size of
+// the loss (practical ranges: up to 10 decimals; here 12 to include the noise
+// a division leaves behind).
+bk_harness! {
+    #[kani::unwind(5)]
+    fn c05_tiny_loss_does_not_panic() {
+        let x = any_in(1, 3); let n = any_in(1, 3);
+        let m = any_in(1, 60000);       // loss = m * 10^-12
+        let bd = x + 3;
+        let st = sfl_state(bd, None);
+        let txs = vec![
+            tx(aff(0), date(SALE_DAY - 5), 0, buy(pos(x, 0), gez(1, 0), gez(0, 0), cad(), None)),
+            tx(aff(0), date(SALE_DAY), 1, sell(pos(n, 0), gez(1, 0), gez(0, 0), cad(), None, None)),
+        ];
+        // any outcome but a panic is acceptable here
+        let r = get_delta_superficial_loss_info(1, &txs, &st, neg(-m, 12));
+        vcover!("returned");
+        core::mem::forget(r); core::mem::forget(txs); core::mem::forget(st);
     }
 }
